@@ -18,7 +18,8 @@ def uniq_features(rng, nmax=2):
         for st in f["bg"]:
             st["value"] = "st%d %s" % (st["id"], rng.choice(flav))
         for r in f["rules"]:
-            r["name"] = "R%d %s" % (r["id"], rng.choice(flav))
+            # 12%: a `Rule:` without a name (valid Gherkin); rules are attributed by the lines of their scenarios anyway
+            r["name"] = "" if rng.random() < 0.12 else "R%d %s" % (r["id"], rng.choice(flav))
             for st in r["bg"]:
                 st["value"] = "st%d %s" % (st["id"], rng.choice(flav))
         for r, s in gens.all_scenarios(f):
